@@ -52,9 +52,12 @@ PROP = {
                       "next n stream bytes, n is exact, ReadAll/WriteAll succeed only with the full buffer, a write puts exactly b[:n] "
                       "on the wire, and any sequence of reads delivers a prefix of the stream (nothing lost, duplicated or invented). "
                       "That the real reactors follow the modelled loops and the kernel stream is FIFO is checked by the trace monitor on "
-                      "real sockets with position-dependent payloads (every completion's bytes and count, and what the peer received).",
+                      "real sockets with position-dependent payloads (every completion's bytes and count, and what the peer received), and by "
+                      "running the model itself (`xfer`): readOp/writeOp executed on the same per-call schedule as a scripted transport behind "
+                      "a real AsyncAdapter and as FIFOs fed chunk by chunk behind sonic.Open, every completion compared exactly; the monitor "
+                      "of that comparison is proved to accept the model for every operation list (C02_monitor_accepts_model).",
         "design_ref": "5/C02",
         "level_note": "Trusted: Lean kernel; hand-written transfer model (not regenerated from the source); Linux TCP/pipe stream semantics.",
-        "technique": "Lean 4 induction over kernel schedules of a transfer-loop model + data-checking trace monitor on real sockets",
+        "technique": "Lean 4 induction over kernel schedules of a transfer-loop model + differential execution of that model against the real reactors on scripted per-call schedules + data-checking trace monitor on real sockets",
     },
 }
